@@ -109,9 +109,25 @@ M["N2_checks_reordered"] = ("fastparquet/writer.py", '''            if pf.file_s
 ''', "N")
 M["N3_restore_whole_tail_earlier"] = ("fastparquet/writer.py", '''            foot_start = f.tell()
             old_foot = f.read()
-''', '''            foot_start = f.tell() - 4
             f.seek(foot_start)
-            old_foot = f.read()
+            try:
+                write_row_groups_and_footer(f)
+            except BaseException:
+                f.seek(foot_start)
+                f.write(old_foot)
+                f.truncate()
+                raise
+''', '''            foot_start = f.tell()
+            f.seek(foot_start - 4)
+            old_tail = f.read()
+            f.seek(foot_start)
+            try:
+                write_row_groups_and_footer(f)
+            except BaseException:
+                f.seek(foot_start - 4)
+                f.write(old_tail)
+                f.truncate()
+                raise
 ''', "N")
 M["N4_single_with_in_part_file"] = ("fastparquet/writer.py", '''            with open_with(partname, 'wb') as f2:
                 rg = make_part_file(f2, row_group, fmd.schema,
